@@ -127,6 +127,18 @@ CHECKS["C09"] = {
     "note": TB + "; previous_block identified by identity or (class, raw, start_line)",
 }
 
+CHECKS["C10"] = {
+    "text": "Enclosing.tla states Strip/Enclose over token-kind sequences with the laws StripOne, Restore, IntRule; MC_Enclosing "
+            "composes it with BibSplitter to enumerate exactly the values of up to 4 (quick: 2.7e3) / 5 tokens that the scanner "
+            "can produce as a field or @string value (plus a Python int and the empty value) and to prove the re-parse law "
+            "(default-enclosed value -> one field with the same content) for brace and quote defaults; every value is replayed "
+            "on RemoveEnclosingMiddleware/AddEnclosingMiddleware for 8 option sets x numeric/other key x metadata kept/absent "
+            "x entry/@string x in place/copy x two spellings, the re-parse law through write_string and parse_string; values "
+            "harvested from random parsed documents are checked for strip/restore.",
+    "ref": "6/C10", "technique": "TLA+ spec (Enclosing.tla) composed with the scanner spec, TLC enumeration of producible values + replay into the middlewares",
+    "note": TB + "; 'one outer pair' read lexically; values ending in an escaped delimiter only checked for the restore law",
+}
+
 NOT_APPLICABLE = {}
 for _e in ENGINES:
     _e["serves_properties"] = sorted(CHECKS)
